@@ -43,7 +43,14 @@ pub fn register(m: &mut HashMap<&'static str, OpFn>) {
                 .map(|c| c == '1')
                 .collect()
         };
-        vec![hex(p.mul_bits_be(bits.into_iter()).as_bytes())]
+        // the bit string through iterators of different shapes (exact size hint, adaptor with lower bound 0, generator
+        // without any hint): all must give the same point
+        let mut it = bits.clone().into_iter();
+        let r1 = p.mul_bits_be(bits.clone().into_iter());
+        let r2 = p.mul_bits_be(bits.iter().copied().filter(|_| true));
+        let r3 = p.mul_bits_be(std::iter::from_fn(|| it.next()));
+        let r4 = p.mul_bits_be(bits.iter().copied().skip_while(|_| false));
+        vec![hex(r1.as_bytes()), hex(r2.as_bytes()), hex(r3.as_bytes()), hex(r4.as_bytes())]
     });
     m.insert("mt.toed", |a| {
         let p = MontgomeryPoint(a.b32(0));
